@@ -248,10 +248,14 @@ fn cost_run<Q: Queue + 'static>(c: &CostCase, stats: &mut Stats, maxima: Option<
                 // k & 4: the appended priorities dominate the receiver's (ascending across the two queues)
                 let off = if k & 4 == 4 { (n as i64) * 2 + (1 << 26) } else { 0 };
                 let pat = if k & 4 == 4 { 0 } else { c.pattern + 1 };
-                let mut other = Q::from_vec((0..m).map(|i| (Key::new((n / 2 + i) as u32, 2), Prio::new(off + pattern_prio(pat, i, m)))).collect());
+                // the dominating variant is disjoint from the receiver, the other overlaps it by half
+                let first_id = if k & 4 == 4 { n + 7 } else { n / 2 };
+                let mut other = Q::from_vec((0..m).map(|i| (Key::new((first_id + i) as u32, 2), Prio::new(off + pattern_prio(pat, i, m)))).collect());
                 reset_cmp_count();
                 q.append(&mut other);
-                ("append", cmp_count(), n + m)
+                let g = cmp_count();
+                // the bound is in terms of the size of the result
+                ("append", g, q.len())
             }
             CBulk::Retain => {
                 reset_cmp_count();
